@@ -151,9 +151,10 @@ fn gen_pi(rng: &mut Rng, hv: &HVocab) -> GTree {
 /// An element name: namespace class first, then a local name of that class.
 fn gen_name(rng: &mut Rng, hv: &HVocab) -> usize {
     match rng.below(20) {
-        0..=6 => hv.id(*rng.pick(HTML_LOCALS), 0),
-        7..=9 => hv.id(*rng.pick(HTML_LOCALS), XHTML),
-        10 => hv.id(*rng.pick(HTML_LOCALS), hv.ns_https),
+        0..=5 => hv.id(*rng.pick(HTML_LOCALS), 0),
+        6 | 7 => hv.id(*rng.pick(HTML_LOCALS), XHTML),
+        // the crate's own XHTML constant: here the HTML rules are checked under ordinary signatures
+        8..=10 => hv.id(*rng.pick(HTML_LOCALS), hv.ns_https),
         11 | 12 => hv.id(*rng.pick(MATHML_LOCALS), MATHML),
         13..=15 => hv.id(*rng.pick(SVG_LOCALS), SVG),
         16 | 17 => hv.id(*rng.pick(FOREIGN_LOCALS), NS_A),
